@@ -207,3 +207,41 @@ func SealZeroAAD(c Cipher, nonce, plaintext []byte, aadLen uint64, tagSize int) 
 	t := GCTR(c, j0, g[:])
 	return append(ct, t[:tagSize]...)
 }
+
+// Pow returns x^e in GF(2^128) (square and multiply).
+func Pow(x Block, e uint64) Block {
+	r := One
+	b := x
+	for e > 0 {
+		if e&1 == 1 {
+			r = Mul(r, b)
+		}
+		b = Mul(b, b)
+		e >>= 1
+	}
+	return r
+}
+
+// SealSparseAAD is Seal for additional data of aadLen >= 16 bytes that consists of the 16 bytes first followed by zero
+// bytes, without materialising it: after the first block the accumulator is first*H, and every further (all-zero)
+// block multiplies it by H once more, so after all n = ceil(aadLen/16) blocks it is first*H^n. GHASH then continues
+// over the ciphertext and the length block from that state: GHASH(A || C || L) = Y_A * H^(m) + GHASH(C || L), where m is
+// the number of blocks that follow the additional data.
+func SealSparseAAD(c Cipher, nonce, plaintext []byte, first Block, aadLen uint64, tagSize int) []byte {
+	if aadLen < 16 {
+		panic("gcmref: SealSparseAAD needs at least one full block")
+	}
+	h := H(c)
+	j0 := J0(h, nonce)
+	ct := GCTR(c, inc32(j0), plaintext)
+	s := pad16(ct)
+	var l [16]byte
+	binary.BigEndian.PutUint64(l[:8], aadLen*8)
+	binary.BigEndian.PutUint64(l[8:], uint64(len(ct))*8)
+	s = append(s, l[:]...)
+	n := (aadLen + 15) / 16
+	ya := Mul(first, Pow(h, n))
+	g := xor(Mul(ya, Pow(h, uint64(len(s)/16))), GHash(h, s))
+	t := GCTR(c, j0, g[:])
+	return append(ct, t[:tagSize]...)
+}
